@@ -261,6 +261,12 @@ pub fn run(a: &Args) -> i32 {
         "friendly blockers are covered through the union semantics on walked positions, not on the full occupancy product".to_string(),
     ];
     rep.mandatory = vec!["direct_table_queries".into(), "walk_attack_queries".into()];
+    if a.tier == "thorough" {
+        if let Err(e) = crate::draws::run_draws("C11", 4, &mut rep, &sink) {
+            eprintln!("MACHINERY-ERROR: {}", e);
+            return 2;
+        }
+    }
     rep.finish(&sink)
 }
 
